@@ -101,7 +101,7 @@ def _process_function(fn):
 
 
 def split_tuple_assignments(tree):
-    """`a, b = x, y` -> `a = x; b = y` when no target is read by any of the values (a swap is left alone)"""
+    """`a, b = x, y` -> `a = x; b = y` when no target is read by the value of another component (a swap is left alone)"""
     n = 0
     for node in ast.walk(tree):
         for f in ("body", "orelse", "finalbody"):
@@ -115,8 +115,11 @@ def split_tuple_assignments(tree):
                         and len(st.targets[0].elts) == len(st.value.elts) and all(isinstance(t, ast.Name) for t in st.targets[0].elts)
                         and not any(isinstance(v, ast.Starred) for v in st.value.elts)):
                     names = [t.id for t in st.targets[0].elts]
-                    read = {x.id for v in st.value.elts for x in ast.walk(v) if isinstance(x, ast.Name)}
-                    if len(set(names)) == len(names) and not (set(names) & read):
+                    # a target may be read by ITS OWN value (`acc, n = acc + x, n + 1`): sequential execution then reads the same old value;
+                    # a target read by another component's value (a swap) needs the simultaneous form
+                    cross = any(x.id == names[k] for k in range(len(names)) for j_, v in enumerate(st.value.elts) if j_ != k
+                                for x in ast.walk(v) if isinstance(x, ast.Name))
+                    if len(set(names)) == len(names) and not cross:
                         new = [ast.copy_location(ast.Assign(targets=[t], value=v), st) for t, v in zip(st.targets[0].elts, st.value.elts)]
                         blk[i:i + 1] = new
                         n += 1
@@ -499,10 +502,16 @@ def coalesce_copies(tree):
         changed = True
         while changed:
             changed = False
-            nested_names = set()
+            nested_names = set()  # names BOUND in a nested scope (reading the enclosing variable from a closure is renamed along)
             for x in ast.walk(fn):
-                if isinstance(x, (ast.FunctionDef, ast.AsyncFunctionDef, ast.Lambda, ast.ClassDef)) and x is not fn:
+                if isinstance(x, (ast.FunctionDef, ast.AsyncFunctionDef, ast.Lambda)) and x is not fn:
+                    nested_names |= _Subst._fn_locals(x)
+                    if not isinstance(x, ast.Lambda):
+                        nested_names.add(x.name)
+                elif isinstance(x, ast.ClassDef):
                     nested_names |= {y.id for y in ast.walk(x) if isinstance(y, ast.Name)}
+                elif isinstance(x, (ast.ListComp, ast.SetComp, ast.DictComp, ast.GeneratorExp)):
+                    nested_names |= {y.id for g in x.generators for y in ast.walk(g.target) if isinstance(y, ast.Name)}
             for i, st in enumerate(fn.body):
                 if not (isinstance(st, ast.Assign) and len(st.targets) == 1 and isinstance(st.targets[0], ast.Name) and isinstance(st.value, ast.Name)):
                     continue
@@ -647,6 +656,21 @@ def flatten_internal_bases(tree):
     return n
 
 
+def _ensure_nf_imports(tree):
+    """`import math as _nf_math` when a rewrite introduced `_nf_math.prod(..)`"""
+    if not any(isinstance(x, ast.Name) and x.id == "_nf_math" for x in ast.walk(tree)):
+        return
+    if any(isinstance(st, ast.Import) and any(al.asname == "_nf_math" for al in st.names) for st in tree.body):
+        return
+    k = 0
+    while k < len(tree.body) and ((isinstance(tree.body[k], ast.Expr) and isinstance(tree.body[k].value, ast.Constant)) or
+                                  (isinstance(tree.body[k], ast.ImportFrom) and tree.body[k].module == "__future__")):
+        k += 1
+    imp = ast.Import(names=[ast.alias(name="math", asname="_nf_math")])
+    tree.body.insert(k, imp)
+    ast.fix_missing_locations(tree)
+
+
 def normalise(tree):
     """in place; returns the number of rewrites.  Order: temporaries and tuple assignments, append loops, private helpers
     (whose bodies are then already in normal form), and temporaries / tuples once more for what the inlining exposed"""
@@ -661,6 +685,7 @@ def normalise(tree):
         total += n + fold_constants(tree) + split_conditional_returns(tree) + _temps_and_tuples(tree)
         n = append_loops_to_comprehensions(tree) + fuse_comprehensions(tree)
         ast.fix_missing_locations(tree)
+    _ensure_nf_imports(tree)
     return total
 
 
@@ -804,8 +829,38 @@ class _Fold(ast.NodeTransformer):
             return ast.copy_location(ast.Constant(value=not node.operand.value), node)
         return node
 
+    @staticmethod
+    def _literal(e):
+        """(True, value) for a literal number / string / bool / None, a negated number, or a tuple / list / set of such"""
+        if isinstance(e, ast.Constant) and isinstance(e.value, (int, float, str, bool, type(None))):
+            return True, e.value
+        if isinstance(e, ast.UnaryOp) and isinstance(e.op, ast.USub) and isinstance(e.operand, ast.Constant) and isinstance(e.operand.value, (int, float)) \
+                and not isinstance(e.operand.value, bool):
+            return True, -e.operand.value
+        if isinstance(e, (ast.Tuple, ast.List, ast.Set)):
+            vals = [_Fold._literal(x) for x in e.elts]
+            if all(v[0] for v in vals):
+                return True, tuple(v[1] for v in vals)
+        return False, None
+
     def visit_Compare(self, node):
         self.generic_visit(node)
+        if len(node.ops) == 1 and isinstance(node.ops[0], (ast.Eq, ast.NotEq, ast.Lt, ast.LtE, ast.Gt, ast.GtE, ast.In, ast.NotIn)):
+            (lk, lv), (rk, rv) = self._literal(node.left), self._literal(node.comparators[0])
+            if lk and rk and not (isinstance(node.left, (ast.Tuple, ast.List, ast.Set))):
+                try:
+                    op = node.ops[0]
+                    if isinstance(op, (ast.In, ast.NotIn)):
+                        if not isinstance(rv, tuple):
+                            raise TypeError
+                        val = (lv in rv) if isinstance(op, ast.In) else (lv not in rv)
+                    else:
+                        val = {ast.Eq: lambda a, b: a == b, ast.NotEq: lambda a, b: a != b, ast.Lt: lambda a, b: a < b, ast.LtE: lambda a, b: a <= b,
+                               ast.Gt: lambda a, b: a > b, ast.GtE: lambda a, b: a >= b}[type(op)](lv, rv)
+                    self.n += 1
+                    return ast.copy_location(ast.Constant(value=bool(val)), node)
+                except TypeError:
+                    pass
         if len(node.ops) == 1 and isinstance(node.ops[0], (ast.Is, ast.IsNot)):
             l, r = node.left, node.comparators[0]
             for x, y in ((l, r), (r, l)):
@@ -834,6 +889,8 @@ class _Fold(ast.NodeTransformer):
             if isinstance(r, ast.If) and isinstance(r.test, ast.Constant) and isinstance(r.test.value, (bool, type(None))):
                 self.n += 1
                 out += r.body if r.test.value else r.orelse
+            elif isinstance(r, ast.Assert) and isinstance(r.test, ast.Constant) and r.test.value is True:
+                self.n += 1  # an assertion that holds by construction
             elif r is not None:
                 out.append(r)
         return out or [ast.copy_location(ast.Pass(), blk[0])] if blk else out
@@ -1004,6 +1061,14 @@ def _collector_op(st):
     if (isinstance(st, ast.Assign) and len(st.targets) == 1 and isinstance(st.targets[0], ast.Subscript) and isinstance(st.targets[0].value, ast.Name)
             and not isinstance(st.targets[0].slice, (ast.Slice, ast.Tuple))):
         return ("setitem", st.targets[0].value.id, st.targets[0].slice, st.value)
+    # an accumulator: `acc = acc + e` / `acc = e + acc` / `acc += e` (and the same with *)
+    if isinstance(st, ast.AugAssign) and isinstance(st.target, ast.Name) and isinstance(st.op, (ast.Add, ast.Mult)):
+        return ("fold+" if isinstance(st.op, ast.Add) else "fold*", st.target.id, st.value)
+    if isinstance(st, ast.Assign) and len(st.targets) == 1 and isinstance(st.targets[0], ast.Name) and isinstance(st.value, ast.BinOp) and isinstance(st.value.op, (ast.Add, ast.Mult)):
+        acc = st.targets[0].id
+        for mine, other in ((st.value.left, st.value.right), (st.value.right, st.value.left)):
+            if isinstance(mine, ast.Name) and mine.id == acc and not any(isinstance(x, ast.Name) and x.id == acc for x in ast.walk(other)):
+                return ("fold+" if isinstance(st.value.op, ast.Add) else "fold*", acc, other)
     return None
 
 
@@ -1036,7 +1101,7 @@ def _loop_as_comprehensions(blk, j, loads, stores):
         out = {}
         for st in stmts:
             op = _collector_op(st)
-            if op is None or op[1] in out:
+            if op is None or op[1] in out or op[0].startswith("fold"):
                 return None
             out[op[1]] = op
         return out
@@ -1047,6 +1112,8 @@ def _loop_as_comprehensions(blk, j, loads, stores):
             if op[1] in collected:
                 return None
             collected[op[1]] = (op[0], None, sub(op[2]) if op[0] == "setitem" else None, sub(op[-1]))
+            if op[0].startswith("fold") and "sum" in stores:
+                return None  # the builtin is shadowed in this function
         elif isinstance(st, ast.Assign) and len(st.targets) == 1 and isinstance(st.targets[0], (ast.Name, ast.Tuple)):
             tg = st.targets[0]
             names = [tg] if isinstance(tg, ast.Name) else list(tg.elts)
@@ -1084,13 +1151,18 @@ def _loop_as_comprehensions(blk, j, loads, stores):
             return None
     if not collected:
         return None
+    if any(k[0].startswith("fold") for k in collected.values()):
+        # an accumulator loop is turned into a fold only when that duplicates no loop-local computation (each temporary read once)
+        for nm in mapping:
+            if sum(1 for l in loads.get(nm, []) if id(l) in inside) > 1:
+                return None
     for t in tnames:  # the loop variables do not escape
         if len(stores.get(t, [])) != len([x for x in ast.walk(loop.target) if isinstance(x, ast.Name) and x.id == t]) or any(id(l) not in inside for l in loads.get(t, [])):
             return None
     inits, out = [], []
     for name, (kind, flt, key, elt) in collected.items():
         init = None
-        for k in range(j - 1, -1, -1):
+        for k in (range(j - 1, -1, -1) if not kind.startswith("fold") else ()):
             s = blk[k]
             if isinstance(s, ast.Assign) and len(s.targets) == 1 and isinstance(s.targets[0], ast.Name) and s.targets[0].id == name:
                 empty = (isinstance(s.value, ast.List) and not s.value.elts) if kind == "append" else (isinstance(s.value, ast.Dict) and not s.value.keys)
@@ -1098,6 +1170,36 @@ def _loop_as_comprehensions(blk, j, loads, stores):
                 break
             if any(isinstance(x, ast.Name) and x.id == name for x in ast.walk(s)):
                 break
+        if kind.startswith("fold"):
+            # acc = e0; for t in it: acc = acc (+|*) f(t)   ->   acc = e0 (+|*) fold([f(t) for t in it])
+            init = None
+            for k in range(j - 1, -1, -1):
+                s = blk[k]
+                if isinstance(s, ast.Assign) and len(s.targets) == 1 and isinstance(s.targets[0], ast.Name) and s.targets[0].id == name:
+                    init = s
+                    break
+                if any(isinstance(x, ast.Name) and x.id == name for x in ast.walk(s)):
+                    break
+            if init is None or len(stores.get(name, [])) != 2 or sum(1 for l in loads.get(name, []) if id(l) in inside) > 1:
+                return None
+            if any(isinstance(x, ast.Name) and x.id == name for x in ast.walk(elt)) or any(isinstance(x, ast.Name) and x.id == name for x in ast.walk(init.value)):
+                return None
+            gen = ast.comprehension(target=_copy(loop.target), iter=_copy(loop.iter), ifs=[], is_async=0)
+            comp = ast.ListComp(elt=elt, generators=[gen])
+            if kind == "fold+":
+                folded = ast.Call(func=ast.Name(id="sum", ctx=ast.Load()), args=[comp], keywords=[])
+                value = folded if (isinstance(init.value, ast.Constant) and init.value.value == 0 and not isinstance(init.value.value, bool)) else \
+                    ast.BinOp(left=_copy(init.value), op=ast.Add(), right=folded)
+            else:
+                folded = ast.Call(func=ast.Attribute(value=ast.Name(id="_nf_math", ctx=ast.Load()), attr="prod", ctx=ast.Load()), args=[comp], keywords=[])
+                value = folded if (isinstance(init.value, ast.Constant) and init.value.value == 1 and not isinstance(init.value.value, bool)) else \
+                    ast.BinOp(left=_copy(init.value), op=ast.Mult(), right=folded)
+            new = ast.Assign(targets=[ast.Name(id=name, ctx=ast.Store())], value=value)
+            ast.copy_location(new, loop)
+            ast.fix_missing_locations(new)
+            inits.append(init)
+            out.append(new)
+            continue
         if init is None or len(stores.get(name, [])) != 1:
             return None
         # inside the loop the collector is only the receiver of its own fill statements
@@ -1209,7 +1311,7 @@ _PROTOCOL_METHODS = {"_matmat", "_rmatmat", "_matvec", "_rmatvec"}
 
 
 def _helper_ok(st, body, allow_super=False):
-    if any(isinstance(x, (ast.FunctionDef, ast.AsyncFunctionDef, ast.ClassDef, ast.Lambda, ast.Yield, ast.YieldFrom, ast.Await, ast.NamedExpr, ast.Global, ast.Nonlocal))
+    if any(isinstance(x, (ast.AsyncFunctionDef, ast.ClassDef, ast.Yield, ast.YieldFrom, ast.Await, ast.NamedExpr, ast.Global, ast.Nonlocal))
            for s in body for x in ast.walk(s)):
         return False
     for s in body:
@@ -1224,13 +1326,28 @@ def _helper_ok(st, body, allow_super=False):
     return True
 
 
+def _own_walk(node):
+    """nodes of a statement that belong to the same function (nested defs / lambdas are not entered)"""
+    if isinstance(node, (ast.FunctionDef, ast.AsyncFunctionDef, ast.Lambda, ast.ClassDef)):
+        yield node
+        return
+    stack = [node]
+    while stack:
+        x = stack.pop()
+        yield x
+        for c in ast.iter_child_nodes(x):
+            if isinstance(c, (ast.FunctionDef, ast.AsyncFunctionDef, ast.Lambda, ast.ClassDef)):
+                continue
+            stack.append(c)
+
+
 def _helper_shape(body):
     """'straight' (simple statements then one return / a procedure), 'single-exit' (any statements, one return, at the end),
     'branching' (several exits: inlined in tail position only)"""
-    is_proc = not any(isinstance(x, ast.Return) for s in body for x in ast.walk(s))
+    is_proc = not any(isinstance(x, ast.Return) for s in body for x in _own_walk(s))
     if is_proc:
         return "straight" if all(isinstance(s, _SIMPLE_STMTS) for s in body) else None
-    if isinstance(body[-1], ast.Return) and body[-1].value is not None and sum(isinstance(x, ast.Return) for s in body for x in ast.walk(s)) == 1:
+    if isinstance(body[-1], ast.Return) and body[-1].value is not None and sum(isinstance(x, ast.Return) for s in body for x in _own_walk(s)) == 1:
         return "straight" if all(isinstance(s, _SIMPLE_STMTS) for s in body[:-1]) else "single-exit"
     return "branching"
 
@@ -1362,7 +1479,33 @@ def _bind(fn, call, tag=0, drop_self=False):
     return bound, pre
 
 
+def _scope_stores(body):
+    """names bound in the scope these statements belong to: assignment / loop / with targets and the names of nested defs -- not the
+    locals of nested functions, lambdas or comprehensions"""
+    out = set()
+    stack = list(body)
+    while stack:
+        x = stack.pop()
+        if isinstance(x, (ast.FunctionDef, ast.AsyncFunctionDef, ast.ClassDef)):
+            out.add(x.name)
+            stack += list(x.decorator_list)
+            if not isinstance(x, ast.ClassDef):
+                stack += [d for d in x.args.defaults + x.args.kw_defaults if d is not None]
+            continue
+        if isinstance(x, ast.Lambda):
+            continue
+        if isinstance(x, (ast.ListComp, ast.SetComp, ast.DictComp, ast.GeneratorExp)):
+            stack.append(x.generators[0].iter)
+            continue
+        if isinstance(x, ast.Name) and isinstance(x.ctx, ast.Store):
+            out.add(x.id)
+        stack += list(ast.iter_child_nodes(x))
+    return out
+
+
 class _Subst(ast.NodeTransformer):
+    """names -> expressions / new names, respecting scopes: inside a nested function, lambda or comprehension the names that scope binds
+    itself (parameters, assignment targets, loop variables) are its own and are left alone"""
     def __init__(self, mapping):
         self.mapping = mapping
 
@@ -1374,6 +1517,71 @@ class _Subst(ast.NodeTransformer):
             if isinstance(node.ctx, ast.Load):
                 return _copy(new)
         return node
+
+    def _scoped(self, node, own):
+        inner = {k: v for k, v in self.mapping.items() if k not in own}
+        if len(inner) == len(self.mapping):
+            return self.generic_visit(node)
+        sub = _Subst(inner)
+        return sub.generic_visit(node)
+
+    @staticmethod
+    def _fn_locals(node):
+        a = node.args
+        own = {x.arg for x in a.posonlyargs + a.args + a.kwonlyargs} | ({a.vararg.arg} if a.vararg else set()) | ({a.kwarg.arg} if a.kwarg else set())
+        if isinstance(node, ast.Lambda):
+            return own
+        declared = set()
+        stack = list(node.body)
+        while stack:
+            x = stack.pop()
+            if isinstance(x, (ast.Global, ast.Nonlocal)):
+                declared |= set(x.names)
+                continue
+            if isinstance(x, (ast.FunctionDef, ast.AsyncFunctionDef, ast.ClassDef)):
+                own.add(x.name)
+                continue
+            if isinstance(x, ast.Lambda):
+                continue
+            if isinstance(x, ast.Name) and isinstance(x.ctx, (ast.Store, ast.Del)):
+                own.add(x.id)
+            if isinstance(x, (ast.ListComp, ast.SetComp, ast.DictComp, ast.GeneratorExp)):
+                continue  # comprehension variables are the comprehension's
+            stack += list(ast.iter_child_nodes(x))
+        return own - declared
+
+    def visit_FunctionDef(self, node):
+        # decorators and defaults are evaluated in the enclosing scope
+        node.decorator_list = [self.visit(d) for d in node.decorator_list]
+        node.args.defaults = [self.visit(d) for d in node.args.defaults]
+        node.args.kw_defaults = [self.visit(d) if d is not None else None for d in node.args.kw_defaults]
+        if isinstance(self.mapping.get(node.name), str):
+            node.name = self.mapping[node.name]
+        own = self._fn_locals(node)
+        inner = _Subst({k: v for k, v in self.mapping.items() if k not in own})
+        node.body = [inner.visit(s_) for s_ in node.body]
+        return node
+
+    visit_AsyncFunctionDef = visit_FunctionDef
+
+    def visit_Lambda(self, node):
+        node.args.defaults = [self.visit(d) for d in node.args.defaults]
+        own = self._fn_locals(node)
+        node.body = _Subst({k: v for k, v in self.mapping.items() if k not in own}).visit(node.body)
+        return node
+
+    def _comp(self, node):
+        own = {x.id for g in node.generators for x in ast.walk(g.target) if isinstance(x, ast.Name)}
+        if not (own & set(self.mapping)):
+            return self.generic_visit(node)
+        # the first iterable is evaluated in the enclosing scope
+        first = self.visit(node.generators[0].iter)
+        inner = _Subst({k: v for k, v in self.mapping.items() if k not in own})
+        node = inner.generic_visit(node)
+        node.generators[0].iter = first
+        return node
+
+    visit_ListComp = visit_SetComp = visit_DictComp = visit_GeneratorExp = _comp
 
 
 def _copy(node):
@@ -1391,7 +1599,7 @@ def _returns_to_assignments(stmts, target):
         return isinstance(last, (ast.Return, ast.Raise)) or (isinstance(last, ast.If) and always_exits(last.body) and always_exits(last.orelse))
 
     def has_return(node):
-        return any(isinstance(x, ast.Return) for x in ast.walk(node))
+        return any(isinstance(x, ast.Return) for x in _own_walk(node))
 
     def conv(blk):
         out = []
@@ -1564,7 +1772,7 @@ def inline_helpers(tree):
         return bound, star_pre
 
     def mapping_for(bound, body, tag, call, pre):
-        assigned = {t.id for s_ in body for t in ast.walk(s_) if isinstance(t, ast.Name) and isinstance(t.ctx, ast.Store)}
+        assigned = _scope_stores(body)
         mapping = {}
         for p_, e in bound.items():
             # an argument that is not a plain reference (a constructor call, an arithmetic expression) is evaluated once, into a
@@ -1603,7 +1811,7 @@ def inline_helpers(tree):
         if direct_args:
             if star_pre:
                 return None
-            assigned = {t.id for s_ in body for t in ast.walk(s_) if isinstance(t, ast.Name) and isinstance(t.ctx, ast.Store)}
+            assigned = _scope_stores(body)
             uses = {}
             for s_ in body:
                 for x in ast.walk(s_):
@@ -1615,7 +1823,7 @@ def inline_helpers(tree):
         tag = counter[0]
         pre = list(star_pre)
         if direct_args:
-            assigned = {t.id for s_ in body for t in ast.walk(s_) if isinstance(t, ast.Name) and isinstance(t.ctx, ast.Store)}
+            assigned = _scope_stores(body)
             mapping = dict(bound)
             for v in assigned:
                 mapping[v] = f"_inl{tag}_{v}"
@@ -1647,7 +1855,7 @@ def inline_helpers(tree):
         if res is None:
             return None
         pre, stmts = res
-        is_proc = not any(isinstance(x, ast.Return) for s_ in stmts for x in ast.walk(s_))
+        is_proc = not any(isinstance(x, ast.Return) for s_ in stmts for x in _own_walk(s_))
         shape = _helper_shape(stmts)
         if is_proc:
             if not as_statement or shape != "straight":
